@@ -16,6 +16,7 @@ package selector
 //@   ensures unproved [C13] len(result) <= 101 * len(endpoints) + 1
 //@   ensures unproved [C13] forall j {result[j]} :: (0 <= j && j < len(result)) ==> (0 <= result[j] && result[j] < len(endpoints))
 //@   loop 0 invariant 0 - 2147483648 * (rangeindex + 1) <= totalCapacity && totalCapacity <= 2147483647 * (rangeindex + 1)
+//@   loop 0 invariant [C13] forall j {endpoints[j].Weight} :: (0 <= j && j <= rangeindex) ==> (minWeight <= endpoints[j].Weight && endpoints[j].Weight <= maxWeight)
 //@   loop 1 invariant idToWeight != nil && objof(weightToId) != objof(staticWeightRouterCache)
 //@   loop 1 invariant (objof(staticWeightRouterCache) == objof(atentry(1, staticWeightRouterCache)) || loopfresh(1, staticWeightRouterCache)) && (objof(weightToId) == 0 || loopfresh(1, weightToId))
 //@   loop 2 invariant idToWeight != nil && objof(weightToId) != objof(staticWeightRouterCache)
